@@ -1601,8 +1601,8 @@ def make_config(prop, tier, rng):
         'nuke_tombstones': rng.random() < 0.6,
         'p_preempt': rng.choice([0.0, 0.05, 0.15]),
         # replacement (delete + create of the same instance) inside one
-        # synchronisation: thorough tier only, see assumptions
-        'preempt_replace': bool(big and rng.random() < 0.5),
+        # synchronisation
+        'preempt_replace': bool(rng.random() < 0.5),
     }
 
 
@@ -1707,10 +1707,8 @@ class NodeSim(enginemod.Engine):
             'only the creation of a running link onto a container holding '
             'such a file is forbidden',
             'the event manager acts inside a manager handler only at the '
-            'entry of configure() (delete of any entry in every tier; delete + '
-            're-create of an entry in the thorough tier only: the unchanged '
-            'tree loses the old container there, see tools/c13-candidate-fixes/'
-            'fix-5); an instance whose entry changed inside a synchronisation '
+            'entry of configure() (delete, or delete + re-create, of any '
+            'entry); an instance whose entry changed inside a synchronisation '
             'is judged when its events are processed, not at the end of that '
             'synchronisation',
             'unique-id collisions caused by the 77-bit truncation of '
